@@ -52,6 +52,11 @@ ENUMS = {   # python enum class name -> (lean type, {member: ctor})
 }
 
 
+CLASS_CONSTS = {   # python classes that only occur as tags -> lean enum constructors
+    "MTURecord": ("RecKind.mtu", "Enum:RecKind"), "TCPRecord": ("RecKind.tcp", "Enum:RecKind"), "HTTPRecord": ("RecKind.http", "Enum:RecKind"),
+}
+
+
 def is_int_ty(t):
     return t in ("Int", "Nat", "Flags", "Lit")
 
@@ -88,6 +93,8 @@ def const_to_lean(val):
         return (f"(Q.mk ({fr.numerator}) {fr.denominator})", "Q")
     if val is None:
         return ("none", "Opt:_")
+    if isinstance(val, type) and val.__name__ in CLASS_CONSTS:
+        return CLASS_CONSTS[val.__name__]
     if isinstance(val, str):
         if any(ord(ch) > 126 or ord(ch) < 32 or ch in '"\\' for ch in val):
             raise NotTranslatable("string constant outside printable ASCII")
@@ -185,6 +192,9 @@ class Fn:
             for ty, m in ENUMS.values():
                 if ty == t[5:]:
                     return f"{ty}.{next(iter(m.values()))}"
+            for e_, ty in CLASS_CONSTS.values():
+                if ty == t:
+                    return e_
         if t.startswith("Opt:"):
             return "none"
         raise NotTranslatable(f"no default value of type {t}")
@@ -417,6 +427,11 @@ class Fn:
                     if neg_const(lo):
                         raise NotTranslatable("negative slice start")
                     return (f"(List.drop {par(self.nat_index(lo, env))} {par(base)})", "Str")
+                if lo is not None and not neg_const(lo) and neg_const(hi):
+                    l_ = self.nat_index(lo, env)
+                    k = hi.operand.value
+                    inner = f"(List.drop {par(l_)} {par(base)})"
+                    return (f"(List.take (List.length {inner} - {k}) {inner})", "Str")          # s[a:-k]
                 if neg_const(hi) or (lo is not None and neg_const(lo)):
                     raise NotTranslatable("negative slice bounds")
                 l = self.nat_index(lo, env) if lo is not None else "0"
@@ -667,6 +682,8 @@ class Fn:
                 raise NotTranslatable("dict with non-string keys tested against a string")
             c = "(" + " || ".join(alts) + ")" if alts else "false"
             return c if isinstance(op, ast.In) else f"(!{c})"
+        if isinstance(op, (ast.Is, ast.IsNot)) and ta.startswith("Enum:") and ta == tb:
+            return f"({a} == {b})" if isinstance(op, ast.Is) else f"({a} != {b})"
         if isinstance(op, (ast.Is, ast.IsNot)):
             if b == "none":
                 if not ta.startswith("Opt:"):
@@ -719,7 +736,65 @@ class Fn:
             return f"({a} {'==' if isinstance(op, ast.Eq) else '!='} {b})"
         raise NotTranslatable(f"comparison {type(op).__name__} on {ta}, {tb}")
 
+    def method_call(self, node, env):
+        args = node.args
+        kw = {k.arg: k.value for k in node.keywords}
+        if isinstance(node.func, ast.Attribute):
+            recv_node = node.func.value
+            meth = node.func.attr
+            rd = dotted(recv_node)
+            if meth in ("endswith", "startswith", "partition", "split", "get", "join"):
+                try:
+                    re_, rt = self.expr(recv_node, env)
+                except NotTranslatable:
+                    re_, rt = None, None
+                if rt == "Str" and meth in ("endswith", "startswith") and len(args) == 1 and not kw:
+                    fn_l = "endsWith" if meth == "endswith" else "startsWith"
+                    if isinstance(args[0], ast.Tuple):
+                        alts = []
+                        for x in args[0].elts:
+                            xe, xt = self.expr(x, env)
+                            if xt != "Str":
+                                raise NotTranslatable("startswith of a non-string")
+                            alts.append(f"({fn_l} {par(re_)} {par(xe)})")
+                        return ("(" + " || ".join(alts) + ")", "Bool")
+                    xe, xt = self.expr(args[0], env)
+                    if xt == "Str":
+                        return (f"({fn_l} {par(re_)} {par(xe)})", "Bool")
+                if rt == "Str" and meth == "join" and len(args) == 1 and not kw and isinstance(args[0], (ast.Tuple, ast.List)):
+                    items = []
+                    for x in args[0].elts:
+                        xe, xt = self.expr(x, env)
+                        if xt != "Str":
+                            raise NotTranslatable("join of non-strings")
+                        items.append(xe)
+                    return (f"(List.intercalate {par(re_)} [" + ", ".join(items) + "])", "Str")
+                if rt == "Str" and meth in ("partition", "split") and len(args) == 1 and not kw:
+                    if isinstance(args[0], ast.Constant) and isinstance(args[0].value, str) and len(args[0].value) == 1 and 32 <= ord(args[0].value) < 127 and args[0].value not in "'\\":
+                        ch = args[0].value
+                        if meth == "partition":
+                            return (f"(partition '{ch}' {par(re_)})", "Tuple:Str,Bool,Str")
+                        return (f"(split '{ch}' {par(re_)})", "List:Str")
+                    raise NotTranslatable(f"{meth} with a separator that is not one printable character")
+                if rt is not None and rt.startswith("DictConst:") and meth == "get" and len(args) == 1 and not kw:
+                    d = self.consts[rt[10:]]
+                    k, tk = self.expr(args[0], env)
+                    vals = [const_to_lean(v) for v in d.values()]
+                    vt = vals[0][1] if vals else "Int"
+                    if any(v[1] != vt for v in vals):
+                        raise NotTranslatable("dict with mixed value types")
+                    out = "none"
+                    for kk, (ve, _) in reversed(list(zip(d.keys(), vals))):
+                        ke, kt = const_to_lean(kk)
+                        c = self.compare(ast.Eq(), (k, tk), (ke, kt))
+                        out = f"(if {c} then some {ve} else {out})"
+                    return (out, "Opt:" + vt)
+        return None
+
     def call(self, node, env):
+        r = self.method_call(node, env)
+        if r is not None:
+            return r
         fname = dotted(node.func)
         if fname is None:
             key = ast.unparse(node.func)
@@ -742,48 +817,6 @@ class Fn:
                 if "ValueError" not in self.t.get("raises", {}) and not getattr(self, "in_try", 0):
                     raise NotTranslatable("int(str) outside a try that handles ValueError")
                 return self.raising(f"(pyInt? {par(e0)})", "Int")
-        if isinstance(node.func, ast.Attribute):
-            recv_node = node.func.value
-            meth = node.func.attr
-            rd = dotted(recv_node)
-            if meth in ("endswith", "startswith", "partition", "split", "get"):
-                try:
-                    re_, rt = self.expr(recv_node, env)
-                except NotTranslatable:
-                    re_, rt = None, None
-                if rt == "Str" and meth in ("endswith", "startswith") and len(args) == 1 and not kw:
-                    fn_l = "endsWith" if meth == "endswith" else "startsWith"
-                    if isinstance(args[0], ast.Tuple):
-                        alts = []
-                        for x in args[0].elts:
-                            xe, xt = self.expr(x, env)
-                            if xt != "Str":
-                                raise NotTranslatable("startswith of a non-string")
-                            alts.append(f"({fn_l} {par(re_)} {par(xe)})")
-                        return ("(" + " || ".join(alts) + ")", "Bool")
-                    xe, xt = self.expr(args[0], env)
-                    if xt == "Str":
-                        return (f"({fn_l} {par(re_)} {par(xe)})", "Bool")
-                if rt == "Str" and meth in ("partition", "split") and len(args) == 1 and not kw:
-                    if isinstance(args[0], ast.Constant) and isinstance(args[0].value, str) and len(args[0].value) == 1 and 32 <= ord(args[0].value) < 127 and args[0].value not in "'\\":
-                        ch = args[0].value
-                        if meth == "partition":
-                            return (f"(partition '{ch}' {par(re_)})", "Tuple:Str,Bool,Str")
-                        return (f"(split '{ch}' {par(re_)})", "List:Str")
-                    raise NotTranslatable(f"{meth} with a separator that is not one printable character")
-                if rt is not None and rt.startswith("DictConst:") and meth == "get" and len(args) == 1 and not kw:
-                    d = self.consts[rt[10:]]
-                    k, tk = self.expr(args[0], env)
-                    vals = [const_to_lean(v) for v in d.values()]
-                    vt = vals[0][1] if vals else "Int"
-                    if any(v[1] != vt for v in vals):
-                        raise NotTranslatable("dict with mixed value types")
-                    out = "none"
-                    for kk, (ve, _) in reversed(list(zip(d.keys(), vals))):
-                        ke, kt = const_to_lean(kk)
-                        c = self.compare(ast.Eq(), (k, tk), (ke, kt))
-                        out = f"(if {c} then some {ve} else {out})"
-                    return (out, "Opt:" + vt)
         if fname in ("any", "all") and len(args) == 1 and isinstance(args[0], ast.GeneratorExp) and not kw:
             g = args[0]
             if len(g.generators) == 1 and not g.generators[0].is_async:
@@ -1039,6 +1072,9 @@ class Fn:
         if isinstance(s, ast.Return):
             if s.value is None:
                 return pad + self.wrap_ret(self.ret("none", "Opt:_"))
+            want = self.t["ret"]
+            if isinstance(s.value, ast.Tuple) and want.startswith("Opt:Tuple:") and not hasattr(self, "ret_types"):
+                return pad + self.wrap_ret("(some " + self.coerce(s.value, env, want[4:]) + ")")
             e, t = self.expr(s.value, env)
             return pad + self.wrap_ret(self.ret(e, t))
         if isinstance(s, ast.Raise):
@@ -1322,6 +1358,10 @@ class Fn:
         e, t = self.expr(node, env)
         if t == want:
             return e
+        if want.startswith("Opt:") and t == "Opt:_":
+            return f"({e} : {self.lean_ty(want)})"
+        if want.startswith("Opt:") and t == want[4:]:
+            return f"(some {e})"
         if want == "Int" and is_int_ty(t):
             return as_int(e, t)
         if want == "Nat" and is_nat_ty(t):
